@@ -734,6 +734,7 @@ def run(prog, run):
     r10 = run.rule('C02.R10', 'the first / last element of a list is taken (first, constFirst, last, takeFirst, front, back, ...) only behind a test that the list is not empty, or '
                               'from a list that cannot be empty (result of split); listed exceptions carry their reason', floor=10)
     run.extra['first_element_sites'] = rule_first_of_nonempty(prog, run, r10)
+    rule_listener_moves_out(prog, run)
 
     r5 = run.rule('C02.R5', 'parsers terminate on sibling lists: every loop guarded by isNull() of a local DOM node advances that node on every path back to '
                             'the loop head (continue included)', floor=18)
@@ -770,3 +771,152 @@ def run(prog, run):
             run.ok(rc, 'controls/c02_controls.cpp', '%s fires on its control (%d reports)' % (name, len(sub.violations)))
         else:
             raise AnalysisBroken('C02.%s does not fire on its positive control (%s): the rule is dead' % (name, want))
+
+
+# --------------------------------------------------------------------------- R11: stream listeners complete only moved-out promises
+def _this_rooted(f, nid, depth=0):
+    """the expression denotes storage inside *this (a member, reached through members / optional / references), not a local value"""
+    n = f.nodes[f.skip(nid)]
+    k = n.get('k')
+    if k == 'this':
+        return True
+    if k == 'mem':
+        return 'base' not in n or _this_rooted(f, n['base'], depth)
+    if k == 'call' and n.get('op') in ('*', '->') and n.get('opargs'):
+        return _this_rooted(f, n['opargs'][0], depth)
+    if k == 'call' and (f.sym(n) or {}).get('name') in ('value', 'get', 'operator*', 'operator->') and n.get('obj') is not None:
+        return _this_rooted(f, n['obj'], depth)
+    if k == 'un' and n.get('op') in ('*', '&'):
+        return _this_rooted(f, n['e'], depth)
+    if k == 'var' and n.get('vk') == 'local' and depth < 4:
+        t = n.get('t') or ''
+        if t.rstrip().endswith(('&', '*')) and 'remove_reference' not in t:
+            d = f.single_def(n.get('decl'))
+            return d is not None and _this_rooted(f, d, depth + 1)
+    return False
+
+
+def rule_listener_moves_out(prog, run):
+    rid = run.rule('C02.R11', 'an object stored by value in the stream-listener variant completes a promise only after moving it out of itself when a continuation attached to its task '
+                              'replaces the listener (the continuation destroys the object while finish() is still running on its member: use after free on an ordinary server answer)', floor=3)
+    # the variant member and its alternatives
+    cands = []
+    for r in prog.records.values():
+        for fl in r.get('fields', []):
+            t = fl.get('t') or ''
+            if t.startswith('std::variant<'):
+                alts = [_qualify(prog, a.strip()) for a in _split_targs(t)]
+                vals = [a for a in alts if not a.endswith('*') and prog.fns_named(a + '::handleElement')]
+                if len(vals) >= 2:
+                    cands.append((fl.get('qname') or r['qname'] + '::' + fl['name'], vals, [a.rstrip(' *') for a in alts if a.endswith('*')]))
+    if len(cands) != 1:
+        raise AnalysisBroken('C02.R11: the stream-listener variant was not identified (%d candidates)' % len(cands))
+    field, vals, ptrs = cands[0]
+    run.extra['listener_variant'] = {'field': field, 'by_value': vals, 'by_pointer': ptrs}
+    # functions that replace the listener, transitively
+    replaces = {}
+
+    def replaces_listener(g, depth=0):
+        if g.id in replaces:
+            return replaces[g.id]
+        replaces[g.id] = False
+        r = False
+        for h in prog.closure(g):
+            for i, n in h.all_nodes('assign'):
+                if h.nodes[h.skip(n['l'])].get('f') == field:
+                    r = True
+            for i, n in h.calls():
+                if n.get('obj') is not None and h.nodes[h.skip(n['obj'])].get('f') == field and (h.sym(n) or {}).get('name') in ('emplace', 'operator=', 'swap'):
+                    r = True
+                if n.get('op') == '=' and n.get('opargs') and h.nodes[h.skip(n['opargs'][0])].get('f') == field:
+                    r = True
+                if not r and depth < 6:
+                    for c in prog.callee_fns(h, n):
+                        if c.entry is not None and '/src/client/' in c.file and replaces_listener(c, depth + 1):
+                            r = True
+        replaces[g.id] = r
+        return r
+    # continuations attached to a listener's task
+    dangerous = {}
+    for f in prog.fns.values():
+        if '/src/client/' not in f.file or f.entry is None:
+            continue
+        for i, n in f.calls():
+            s = f.sym(n) or {}
+            if s.get('name') != 'then' or 'QXmppTask' not in (s.get('record') or '') or n.get('obj') is None:
+                continue
+            owners = set()
+            stack = [n['obj']]
+            seen = set()
+            while stack:
+                x = f.skip(stack.pop())
+                if x in seen:
+                    continue
+                seen.add(x)
+                for y in f.walk(x):
+                    m = f.nodes[y]
+                    if m.get('k') == 'call':
+                        ms = f.sym(m) or {}
+                        for v in vals:
+                            if ms.get('record') == v or (ms.get('ret') or '').replace('&', '').strip() == v or ('<' + v + '>') in (f.cname(m) or ''):
+                                owners.add(v)
+                    if m.get('k') == 'var' and m.get('vk') == 'local':
+                        d = f.single_def(m.get('decl'))
+                        if d is not None:
+                            stack.append(d)
+            if not owners:
+                continue
+            lams = [l for a in n.get('args', []) for l in prog.lambda_fns(f, f.nodes[f.skip(a)])] or \
+                   [l for a in n.get('args', []) for y in f.walk(a) for l in prog.lambda_fns(f, f.nodes[y])]
+            for v in owners:
+                for l in lams:
+                    if replaces_listener(l):
+                        dangerous.setdefault(v, (f, i))
+    nfin = 0
+    for v in vals:
+        for g in prog.fns.values():
+            if not (g.qname.startswith(v + '::') or (g.is_lambda and g.outer_name().startswith(v + '::'))) or g.entry is None:
+                continue
+            for i, n in g.calls():
+                s = g.sym(n) or {}
+                if s.get('name') != 'finish' or 'QXmppPromise' not in (s.get('record') or '') or n.get('obj') is None:
+                    continue
+                nfin += 1
+                run.instance(rid)
+                inplace = _this_rooted(g, n['obj'])
+                if inplace and v in dangerous:
+                    cf, ci = dangerous[v]
+                    run.violation(rid, '%s#finishes-member-promise' % g.outer_name(), g.loc(i),
+                                  '%s completes a promise that still lives inside the listener object (%s); the continuation attached at %s replaces the stream listener, which destroys '
+                                  'this object while finish() runs on it' % (g.display()[:60], g.fmt(n['obj'], inline=False)[:50], cf.loc(ci)))
+                else:
+                    run.ok(rid, g.loc(i), ('moved out before completion' if not inplace else 'completed in place; no continuation of this listener replaces the listener'), nontrivial=not inplace)
+    run.extra['listener_finish_sites'] = nfin
+    run.extra['listeners_with_replacing_continuation'] = sorted(dangerous)
+
+
+def _qualify(prog, a):
+    """the type as written in the variant -> the qualified record name"""
+    star = ' *' if a.endswith('*') else ''
+    a = a.rstrip(' *')
+    for q in prog.records:
+        if q == a or q.endswith('::' + a):
+            return q + star
+    return a + star
+
+
+def _split_targs(t):
+    inner = t[t.index('<') + 1:t.rindex('>')]
+    out, depth, cur = [], 0, ''
+    for ch in inner:
+        if ch == '<':
+            depth += 1
+        elif ch == '>':
+            depth -= 1
+        if ch == ',' and depth == 0:
+            out.append(cur)
+            cur = ''
+        else:
+            cur += ch
+    out.append(cur)
+    return out
